@@ -41,7 +41,7 @@ def main(chk):
     orient_names = ['T4', 'T5'] if quick else ['T4', 'T5', 'T6']
     chk.bounds = {'meshes': names, 'orientation_repair_meshes': orient_names, 'max_nodes': 5 if quick else 7,
                   'winding_patterns': 'all 2^F input windings per orientation mesh', 'permutations': 'all adjacent transpositions of node storage and of face storage',
-                  'outside': 'get_cell_longest_axis (eigen-solver, trigonometric closed form) is not encoded; rounding/cancellation far from the origin is outside the exact-real claim'}
+                  'outside': 'the 3x3 eigen-solver itself (gte::SymmetricEigensolver3x3, iterative) is environment: the matrix it receives and the use of its result are checked; rounding/cancellation far from the origin is outside the exact-real claim'}
     chk.trusted += ['clang-14 lowering validated per run against g++ -O2 (bitwise) on random coordinates', 'irsym interpreter incl. its libstdc++ red-black-tree shim', 'z3 nlsat',
                     'exact-real reading of doubles; sqrt(x) = s with s>=0, s*s=x']
     chk.assumptions += ['input mesh closed, consistently wound, in generic position: every exact comparison of a real quantity with a constant made by the code (face-normal norm == 0) is assumed to fall on the non-equal side; signed volume non-zero',
@@ -263,6 +263,68 @@ def main(chk):
                 chk.note('%s winding %s: only %d feasible sign branch(es)' % (name, pname, sides))
 
     chk.log('discharging %d obligations' % len(tasks))
+    # ---- longest axis: covariance matrix handed to the eigen-solver, selection of the largest eigenvalue ---------------------------------
+    EIG = '_ZNK5mat3319eigen_decompositionEv'
+    from irsym.interp import K_DOUBLE
+    for name in (['T4', 'T5'] if quick else ['T4', 'T5', 'T6']):
+        m = M.CATALOGUE[name]
+        X = M.sym_coords(m)
+        nn = len(m['pts'])
+        L = [S.var('lam%d' % k) for k in range(3)]
+        EV = [[S.var('ev%d%d' % (r_, c_)) for c_ in range(3)] for r_ in range(3)]
+        seen_mats = []
+        def eig_stub(it, a):
+            mat = [it.load(a[1] + 8 * k, 8, K_DOUBLE) for k in range(9)]
+            it.events.append(('eig', mat))
+            for k in range(3): it.store(a[0] + 8 * k, 8, L[k])
+            for r_ in range(3):
+                for c_ in range(3): it.store(a[0] + 24 + 8 * (3 * r_ + c_), 8, EV[r_][c_])
+            return None
+        sess_ax = api.Session(ir, mode='real', overrides={EIG: eig_stub})
+        if EIG not in sess_ax.module.funcs:
+            chk.fail_closed.append('mat33::eigen_decomposition not found under its expected symbol; stub not applied'); break
+        # columns are unit eigenvectors (what the solver returns); eigenvalues pairwise different in magnitude (generic)
+        A = [S.cmp('gt', M.signed_volume6(X, m['faces']), S.ZERO)]
+        for c_ in range(3): A.append(S.cmp('eq', S.add(S.add(S.mul(EV[0][c_], EV[0][c_]), S.mul(EV[1][c_], EV[1][c_])), S.mul(EV[2][c_], EV[2][c_])), S.ONE))
+        # generic position: no two eigenvalues of equal magnitude (with a tie of the two largest the code falls through to its last
+        # branch and returns the third column; recorded as an observation in DESIGN.md, not part of the claim)
+        for i_ in range(3):
+            for j_ in range(i_ + 1, 3):
+                A.append(S.cmp('ne', S.mul(L[i_], L[i_]), S.mul(L[j_], L[j_])))
+        ctl, res = sess_ax.explore('h_c12_axis', M.flat(X), M.iin_of(m), assumptions=A, zctx=z, max_paths=40, branch_timeout_ms=20000, generic_position=True)
+        chk.absorb(session=sess_ax, ctl=ctl)
+        if not ctl.exhausted: chk.fail_closed.append('%s longest axis: path budget exhausted' % name)
+        def cov(a_, b_):
+            acc = S.ZERO
+            for p_ in X: acc = S.add(acc, S.mul(S.sub(p_[a_], cen[a_]), S.sub(p_[b_], cen[b_])))
+            return S.div(acc, S.const(nn))
+        first = True
+        for (tr, pc, r) in res:
+            if getattr(r, 'status', None) == 'pathend': continue
+            if r.status != 'ok': chk.fail_closed.append('%s longest axis path: %s %r' % (name, r.status, getattr(r, 'error', None))); continue
+            mats = [e[1] for e in r.events if e[0] == 'eig']
+            if len(mats) != 1: chk.fail_closed.append('%s longest axis: eigen-solver called %d times' % (name, len(mats))); continue
+            key = '%s/longest axis/path %s' % (name, ''.join('T' if d.taken else 'F' for d in tr if not d.forced) or '-')
+            if first:
+                first = False
+                mt = mats[0]
+                cen = [S.R(v) for v in r.dout[3:6]]       # the cell centroid as the code computes it (area-weighted, law proved above)
+                for a_ in range(3):
+                    for b_ in range(3):
+                        add('%s/longest axis/matrix given to the eigen-solver: entry (%d,%d) is the mean of (p-c)_a (p-c)_b over the nodes, c the cell centroid' % (name, a_, b_), pc[:len(A)], S.cmp('eq', S.R(mt[3 * a_ + b_]), cov(a_, b_)))
+            # the returned direction is the (unit) eigenvector column whose eigenvalue has the largest magnitude on this path
+            out = [S.R(v) for v in r.dout[:3]]
+            absL = [S.ite(S.cmp('ge', L[k], S.ZERO), L[k], S.neg(L[k])) for k in range(3)]
+            cl = S.FALSE
+            for k in range(3):
+                is_k = S.TRUE
+                for t_ in range(3): is_k = S.band(is_k, S.cmp('eq', out[t_], EV[t_][k]))
+                dom = S.TRUE
+                for j in range(3):
+                    if j != k: dom = S.band(dom, S.cmp('ge', absL[k], absL[j]))
+                cl = S.bor(cl, S.band(is_k, dom))
+            add(key + '/result is the unit eigenvector of an eigenvalue of largest magnitude', pc, cl)
+
     outs = par.prove_all(z, [t[:4] for t in tasks])
     chk.queries += z.queries
     for (nm, pc, cl, _, core), (st, model, dt) in zip(tasks, outs):
@@ -348,6 +410,8 @@ def replay_geom(native, nm, model):
     name = nm.split('/')[0]
     m = M.CATALOGUE[name]
     din = model_coords(model, m)
+    if '/longest axis/' in nm:
+        return replay_axis(native, m, din)
     q = native.call('h_c12_geom_noorient', din, M.iin_of(m))
     if q['status'] != 0 or not q['d']: return {'reproduced': False, 'what': 'native run failed'}
     pts = [din[3 * i:3 * i + 3] for i in range(len(m['pts']))]
@@ -372,6 +436,41 @@ def replay_geom(native, nm, model):
         lo = min(p[k] for p in pts); hi = max(p[k] for p in pts)
         if d[5 + k] != lo or d[8 + k] != hi: errs.append('aabb axis %d [%r,%r] vs oracle [%r,%r]' % (k, d[5 + k], d[8 + k], lo, hi))
     return {'reproduced': bool(errs), 'what': '; '.join(errs) if errs else 'native run agrees with the float oracle', 'coords': din}
+
+def replay_axis(native, m, din):
+    """native get_cell_longest_axis (real eigen-solver) against numpy's eigen-decomposition of the second-moment matrix about the cell centroid;
+    the solver's coordinates are tried first, then a few stretched and tilted variants of the mesh (a wrong matrix entry needs a cell whose
+    principal axes are not aligned with the coordinate axes to change the principal direction)"""
+    import numpy as np, math
+    base = np.array(din, dtype=float).reshape(-1, 3)
+    variants = [base]
+    Rx = lambda t: np.array([[1, 0, 0], [0, math.cos(t), -math.sin(t)], [0, math.sin(t), math.cos(t)]])
+    Ry = lambda t: np.array([[math.cos(t), 0, math.sin(t)], [0, 1, 0], [-math.sin(t), 0, math.cos(t)]])
+    P0 = np.array([list(p) for p in m['pts']], dtype=float)
+    for (sx, sy, sz, tx, ty) in ((1, 1, 3, 0.6, 0.0), (3, 1, 1, 0.0, 0.7), (1, 2.5, 1, 0.5, 0.4), (1, 1, 3, 0.3, 0.9)):
+        variants.append((P0 * np.array([sx, sy, sz])) @ Rx(tx).T @ Ry(ty).T)
+    worst = None
+    for V in variants:
+        q = native.call('h_c12_axis', [float(x) for x in V.reshape(-1)], M.iin_of(m))
+        if q.get('status') != 0 or len(q['d']) < 6: continue
+        axis = np.array(q['d'][0:3]); cen = np.array(q['d'][3:6])
+        D = V - cen
+        Mx = D.T @ D / len(V)
+        w, U = np.linalg.eigh(Mx)
+        order = np.argsort(-np.abs(w))
+        if abs(abs(w[order[0]]) - abs(w[order[1]])) < 1e-6 * abs(w[order[0]]): continue       # no unique longest axis
+        vmax = U[:, order[0]]
+        dev = 1.0 - abs(float(axis @ vmax))
+        if dev > 1e-6:
+            ang = math.degrees(math.acos(max(-1.0, min(1.0, abs(float(axis @ vmax))))))
+            worst = {'reproduced': True, 'what': 'native longest axis %r deviates %.2f degrees from the principal direction %r of the second-moment matrix' % ([round(x, 6) for x in axis], ang, [round(float(x), 6) for x in vmax]), 'coords': [float(x) for x in V.reshape(-1)]}
+            break
+    return worst or {'reproduced': False, 'what': 'native longest axis agrees with the principal direction on the solver model and on the tilted variants'}
+
+def sum_coord(X, k):
+    acc = S.ZERO
+    for p_ in X: acc = S.add(acc, p_[k])
+    return acc
 
 if __name__ == '__main__':
     run_check('C12', main)
